@@ -41,3 +41,30 @@ Theorem C18_no_dead_ends : forall charset D i x j w outs_j,
   fanout charset (with_live charset D) j outs_j <> O /\ re_mass charset (with_live charset D) (j, outs_j) = 1%Qc.
 Proof. intros; split; [eapply with_live_targets_positive|eapply with_live_targets_normalised]; eassumption. Qed.
 Print Assumptions C18_no_dead_ends.
+
+(* The language of the result: with the initial weight 1 on the DFA's initial state (re_wfsa), the weight of a string is
+   never negative and is non-zero exactly when the DFA accepts the string by single-character moves of the character
+   set into live states -- for EVERY DFA and character set (no uniqueness of map entries assumed). *)
+From GV.model Require Wfsa.
+From GV.proofs Require RegexLangProofs.
+Theorem C18_language : forall (charset : list nat) (D : dfa) (xs : list nat),
+  (0 <= Wfsa.pathsum (RegexLangProofs.re_wfsa charset D) xs)%Qc /\
+  (Wfsa.pathsum (RegexLangProofs.re_wfsa charset D) xs <> 0%Qc <-> RegexLangProofs.dfa_run charset D (d_init D) xs) /\
+  ((0 < Wfsa.pathsum (RegexLangProofs.re_wfsa charset D) xs)%Qc <-> RegexLangProofs.dfa_run charset D (d_init D) xs) /\
+  Wfsa.eps_free (RegexLangProofs.re_wfsa charset D).
+Proof.
+  intros charset D xs.
+  split; [exact (RegexLangProofs.re_pathsum_nonneg charset D xs)|].
+  split; [exact (RegexLangProofs.re_language charset D xs)|].
+  split; [exact (RegexLangProofs.re_language_pos charset D xs)|exact (RegexLangProofs.re_wfsa_eps_free charset D)].
+Qed.
+Print Assumptions C18_language.
+
+Example C18_language_nonvacuous :
+  Wfsa.pathsum (RegexLangProofs.re_wfsa [7; 8]%nat RegexLangProofs.exD) [7; 7]%nat = Q2Qc (1 # 4) /\
+  Wfsa.pathsum (RegexLangProofs.re_wfsa [7; 8]%nat RegexLangProofs.exD) [8]%nat = 0%Qc /\
+  RegexLangProofs.dfa_run [7; 8]%nat RegexLangProofs.exD 0%nat [7; 7]%nat.
+Proof.
+  split; [exact RegexLangProofs.exD_accepts_77|split; [exact RegexLangProofs.exD_rejects_8|exact RegexLangProofs.exD_run_77]].
+Qed.
+Print Assumptions C18_language_nonvacuous.
